@@ -2206,6 +2206,14 @@ class Builder:
         try:
             pre_commands = self.subrt_pop_all_pending_commands()
             loop_register_result = self._loop_get_register(loop_register, activate=True)
+            # A register given by the caller is not activated by _loop_get_register:
+            # claim it for the duration of the body, like _build_cmds_loop_body does.
+            loop_register_already_activated = (
+                loop_register is not None
+                and self._mem_mgr.is_register_active(loop_register_result)
+            )
+            if loop_register is not None and not loop_register_already_activated:
+                self._mem_mgr.add_active_register(loop_register_result)
             yield loop_register_result
         finally:
             body_commands = self.subrt_pop_all_pending_commands()
@@ -2217,7 +2225,8 @@ class Builder:
                 step=step,
                 loop_register=loop_register_result,
             )
-            self._mem_mgr.remove_active_register(loop_register_result)
+            if not loop_register_already_activated:
+                self._mem_mgr.remove_active_register(loop_register_result)
 
     def sdk_loop_body(
         self,
